@@ -27,3 +27,19 @@ Definition wf_entryb (len : nat) (ie : nat * asentry) : bool :=
 Definition wf_segb (s : segment) : bool :=
   (2 <=? length (sg_entries s))%nat && nodupb (map ae_ia (sg_entries s))
   && forallb (wf_entryb (length (sg_entries s))) (enumerate (sg_entries s)).
+
+(** the peer entries of an AS entry name pairwise different peering links *)
+Definition peer_key3_eqb (a b : N * N * N) : bool :=
+  let '(a1, a2, a3) := a in let '(b1, b2, b3) := b in (a1 =? b1) && (a2 =? b2) && (a3 =? b3).
+Fixpoint nodup3b (l : list (N * N * N)) : bool :=
+  match l with [] => true | x :: r => negb (existsb (peer_key3_eqb x) r) && nodup3b r end.
+Definition wf_peersb (s : segment) : bool :=
+  forallb (fun ae => nodup3b (map (fun p => (hf_in (pe_hf p), pe_ia p, pe_if p)) (ae_peers ae))) (sg_entries s).
+
+(** decidable tie test: do two neighbours of a (sorted) solution list compare Equal under the
+    sort key of get_paths? *)
+Fixpoint adjacent_ties (l : list solution) : bool :=
+  match l with
+  | a :: ((b :: _) as r) => (match cmp_sol a b with Eq => true | _ => false end) || adjacent_ties r
+  | _ => false
+  end.
